@@ -127,7 +127,7 @@ def handleR (car : Carrier α) (args : List String) : String :=
       let some psi := parseArr car psi | return "bad-op"
       if psi.size ≠ 2 ^ n then return "bad-op"
       -- `sorted(keep_index_set)`: the harness sends the set sorted; the assertion of state.py:245 is the range check
-      match (RawOp.measure keep (keep.map fun _ => false)).compile n with
+      match (RawOp.measure (α := α) keep (keep.map fun _ => false)).compile n with
       | some (.measure s _) => return strArr car (tabulate (reduceToProbability s (lookup (n := n) psi)))
       | _ => return "error"
   | ["circ", n, prog, psi] => Id.run do
@@ -149,8 +149,8 @@ end
 
 def handle (args : List String) : String :=
   match args with
-  | "Z" :: rest => handleR carZ rest
-  | "Q" :: rest => handleR carQ rest
+  | op :: "Z" :: rest => handleR carZ (op :: rest)
+  | op :: "Q" :: rest => handleR carQ (op :: rest)
   | _ => "bad-op"
 
 end Numqi.Driver.C03
